@@ -1,13 +1,18 @@
 package props
 
 import (
+	"bytes"
 	"encoding/json"
 	"fmt"
 	"hash/crc32"
 	"hash/fnv"
 	"os"
 	"path/filepath"
+	"sort"
+	"sync"
 	"testing"
+
+	"verifh/gen"
 )
 
 // Hostile constants for C05: pairs of inputs of equal length whose results differ but which collide
@@ -80,4 +85,209 @@ func loadCollisions() []collisionPair {
 	var out []collisionPair
 	json.Unmarshal(raw, &out)
 	return out
+}
+
+// ---------------------------------------------------------------------------
+// Word-level collisions: benign identifiers whose 32-bit hash equals the hash of a keyword-table
+// word, for the hash functions a table index is most likely to be built with, and for both case
+// conventions (hash of the upper-cased word against the table's upper-case keys; hash of the
+// lower-cased word against lower-cased keys). A look-up that trusts the hash and does not
+// compare the key text turns exactly these identifiers into keywords. All the hash functions
+// used are invertible byte by byte, so the identifiers are found by meeting in the middle:
+// states reached from the start value through "id" + 4 characters against states from which 3
+// more letters lead to the key's hash. They are computed at run time from the table of the tree
+// under test (deterministic enumeration, no randomness).
+
+type wordCollider struct {
+	Word, Key, Hash string
+	Typ             byte
+}
+
+type stepHash struct {
+	name     string
+	init     uint32
+	step     func(h uint32, c byte) uint32
+	unstep   func(h uint32, c byte) uint32
+	finalXor uint32
+}
+
+func inv32(a uint32) uint32 { // inverse of an odd number modulo 2^32
+	x := a
+	for i := 0; i < 5; i++ {
+		x *= 2 - a*x
+	}
+	return x
+}
+
+func crcStepper(name string, tab *crc32.Table) stepHash {
+	var rev [256]byte
+	for i := 0; i < 256; i++ {
+		rev[tab[i]>>24] = byte(i)
+	}
+	return stepHash{name: name, init: 0xffffffff, finalXor: 0xffffffff,
+		step: func(h uint32, c byte) uint32 { return tab[byte(h)^c] ^ h>>8 },
+		unstep: func(h uint32, c byte) uint32 {
+			i := rev[h>>24]
+			return (h^tab[i])<<8 | uint32(i^c)
+		}}
+}
+
+func stepHashers() []stepHash {
+	const p = 16777619
+	pi, i33, i31, i65599 := inv32(p), inv32(33), inv32(31), inv32(65599)
+	return []stepHash{
+		{name: "fnv1a32", init: 2166136261, step: func(h uint32, c byte) uint32 { return (h ^ uint32(c)) * p }, unstep: func(h uint32, c byte) uint32 { return h*pi ^ uint32(c) }},
+		{name: "fnv1_32", init: 2166136261, step: func(h uint32, c byte) uint32 { return h*p ^ uint32(c) }, unstep: func(h uint32, c byte) uint32 { return (h ^ uint32(c)) * pi }},
+		crcStepper("crc32", crc32.IEEETable),
+		crcStepper("crc32c", crc32.MakeTable(crc32.Castagnoli)),
+		{name: "djb2", init: 5381, step: func(h uint32, c byte) uint32 { return h*33 + uint32(c) }, unstep: func(h uint32, c byte) uint32 { return (h - uint32(c)) * i33 }},
+		{name: "djb2x", init: 5381, step: func(h uint32, c byte) uint32 { return h*33 ^ uint32(c) }, unstep: func(h uint32, c byte) uint32 { return (h ^ uint32(c)) * i33 }},
+		{name: "times31", init: 0, step: func(h uint32, c byte) uint32 { return h*31 + uint32(c) }, unstep: func(h uint32, c byte) uint32 { return (h - uint32(c)) * i31 }},
+		{name: "sdbm", init: 0, step: func(h uint32, c byte) uint32 { return h*65599 + uint32(c) }, unstep: func(h uint32, c byte) uint32 { return (h - uint32(c)) * i65599 }},
+	}
+}
+
+func (sh stepHash) sum(b []byte) uint32 {
+	h := sh.init
+	for _, c := range b {
+		h = sh.step(h, c)
+	}
+	return h ^ sh.finalXor
+}
+
+var (
+	wordColOnce sync.Once
+	wordColVal  []wordCollider
+)
+
+// colliderTargets: up to 8 single-word keys per token type (shortest first), fingerprints excluded
+func colliderTargets() []string {
+	by := map[byte][]string{}
+	for k, v := range kwTab() {
+		ok := v != 'F' && len(k) >= 2
+		for i := 0; i < len(k) && ok; i++ {
+			ok = (k[i] >= 'A' && k[i] <= 'Z') || k[i] == '_'
+		}
+		if ok {
+			by[v] = append(by[v], k)
+		}
+	}
+	var out []string
+	for _, ks := range by {
+		sort.Slice(ks, func(i, j int) bool {
+			if len(ks[i]) != len(ks[j]) {
+				return len(ks[i]) < len(ks[j])
+			}
+			return ks[i] < ks[j]
+		})
+		if len(ks) > 8 {
+			ks = ks[:8]
+		}
+		out = append(out, ks...)
+	}
+	sort.Strings(out)
+	return out
+}
+
+func wordColliders() []wordCollider {
+	wordColOnce.Do(func() {
+		targets := colliderTargets()
+		perKey := pick(3, 12)
+		var mu sync.Mutex
+		var wg sync.WaitGroup
+		sem := make(chan struct{}, workers)
+		for _, sh := range stepHashers() {
+			for conv := 0; conv < 2; conv++ {
+				sh, conv := sh, conv
+				wg.Add(1)
+				sem <- struct{}{}
+				go func() {
+					defer wg.Done()
+					defer func() { <-sem }()
+					// convention 0: the word is upper-cased before hashing; 1: lower-cased
+					letters := []byte("abcdefghijklmnopqrstuvwxyz")
+					mid := []byte("abcdefghijklmnopqrstuvwxyz0123456789_")
+					pre := []byte("id")
+					if conv == 0 {
+						letters, mid, pre = bytes.ToUpper(letters), bytes.ToUpper(mid), bytes.ToUpper(pre)
+					}
+					type back struct {
+						h    uint32
+						key  uint16
+						tail [3]byte
+					}
+					var backs []back
+					filter := make([]uint64, 1<<18)
+					for ki, k := range targets {
+						kb := []byte(k)
+						if conv == 1 {
+							kb = bytes.ToLower(kb)
+						}
+						t := sh.sum(kb) ^ sh.finalXor // internal state
+						for _, c3 := range letters {
+							h3 := sh.unstep(t, c3)
+							for _, c2 := range letters {
+								h2 := sh.unstep(h3, c2)
+								for _, c1 := range letters {
+									h1 := sh.unstep(h2, c1)
+									backs = append(backs, back{h1, uint16(ki), [3]byte{c1, c2, c3}})
+									filter[h1>>8>>6] |= 1 << (h1 >> 8 & 63)
+								}
+							}
+						}
+					}
+					sort.Slice(backs, func(i, j int) bool { return backs[i].h < backs[j].h })
+					got := make([]int, len(targets))
+					var found []wordCollider
+					h0 := sh.init
+					for _, c := range pre {
+						h0 = sh.step(h0, c)
+					}
+					for _, a := range mid {
+						ha := sh.step(h0, a)
+						for _, b := range mid {
+							hb := sh.step(ha, b)
+							for _, c := range mid {
+								hc := sh.step(hb, c)
+								for _, d := range mid {
+									hd := sh.step(hc, d)
+									if filter[hd>>8>>6]&(1<<(hd>>8&63)) == 0 {
+										continue
+									}
+									i := sort.Search(len(backs), func(i int) bool { return backs[i].h >= hd })
+									for ; i < len(backs) && backs[i].h == hd; i++ {
+										bk := backs[i]
+										if got[bk.key] >= perKey {
+											continue
+										}
+										word := append(append(append([]byte{}, pre...), a, b, c, d), bk.tail[:]...)
+										kb := []byte(targets[bk.key])
+										if conv == 1 {
+											kb = bytes.ToLower(kb)
+										}
+										if sh.sum(word) != sh.sum(kb) {
+											panic("collision search: hash mismatch for " + sh.name)
+										}
+										got[bk.key]++
+										found = append(found, wordCollider{Word: gen.LowerASCII(string(word)), Key: targets[bk.key], Hash: fmt.Sprintf("%s/%d", sh.name, conv), Typ: kwTab()[targets[bk.key]]})
+									}
+								}
+							}
+						}
+					}
+					mu.Lock()
+					wordColVal = append(wordColVal, found...)
+					mu.Unlock()
+				}()
+			}
+		}
+		wg.Wait()
+		sort.Slice(wordColVal, func(i, j int) bool {
+			if wordColVal[i].Hash != wordColVal[j].Hash {
+				return wordColVal[i].Hash < wordColVal[j].Hash
+			}
+			return wordColVal[i].Word < wordColVal[j].Word
+		})
+	})
+	return wordColVal
 }
